@@ -13,11 +13,13 @@ PROP_FILES = ["Prop"]
 ALLOWED_AXIOMS = []
 EXTRA_COQ_DIRS = []
 RULE = ("a case = (wait flag, control script over play/pause/resume/stop/close issued by the main thread, "
-        "complete schedule = list of thread ids chosen at the synchronisation points); schedules are "
-        "discovered on the IMPLEMENTATION: all schedules with <= 2 pre-emptions for the small configurations "
-        "(1-2 players, 1-3 chunks, <= 2-3 control calls before close), seeded random walks beyond (up to 3 "
-        "players, 6 control calls, close in the middle, repeated close, play after close); each one is "
-        "re-executed and replayed in Coq; non-trivial = at least one pre-emption and at least one control call")
+        "complete schedule = list of thread ids chosen at the synchronisation points); play commands use float32 or "
+        "integer sample formats (b/h/i), ragged lengths (zero padding), and iterables that raise after k chunks "
+        "(playbad); schedules are discovered on the IMPLEMENTATION: all schedules with <= 2 pre-emptions (<= 1 for the "
+        "larger ones) for the small configurations (1-2 players, 1-3 chunks, <= 2-3 control calls before close), seeded "
+        "random walks beyond (up to 3 players, 6 control calls, close in the middle, repeated close, play after close, "
+        "scripts without close); each one is re-executed and replayed in Coq; non-trivial = at least one pre-emption "
+        "and at least one control call")
 EXHAUSTIVE = {"quick": False, "thorough": False}
 trusted_base = [
   "harness/C17_sched.py: baton scheduler over real OS threads; fake pyaudio/_portaudio (sys.modules), "
@@ -116,12 +118,17 @@ def small_configs(tier):
   """(wait, script, pre-emption bound, tag): every schedule within the bound is generated"""
   out = []
 
-  def add(np_, nch, n, bound):
+  def add(np_, nch, n, bound, bad=None):
     for seq in itertools.product(ctl_alphabet(np_), repeat=n):
       for wait in (False, True):
         plays_ = [play(k, nch if k == 0 else max(1, nch - 1), 2, 1, ragged=(nch == 2)) for k in range(np_)]
+        if bad is not None:      # the iterable of the first player raises after `bad` chunks
+          plays_[0] = ["playbad", 2, 1, audio(0, nch, 2, False), bad]
+        elif nch == 2 and n == 1:
+          plays_[0] = plays_[0] + ["h"]      # an integer sample format, padded with the integer 0
         script = plays_ + [list(x) for x in seq] + [["close"]]
-        out.append((wait, script, bound, "np=%d nch=%d ctl=%d bound=%d" % (np_, nch, n, bound)))
+        out.append((wait, script, bound, "np=%d nch=%d ctl=%d bound=%d%s" % (
+          np_, nch, n, bound, "" if bad is None else " bad=%d" % bad)))
 
   if tier == "quick":
     for nch in (1, 2):
@@ -129,6 +136,9 @@ def small_configs(tier):
         add(1, nch, n, 2)
     add(1, 2, 2, 1)
     add(2, 1, 0, 1)
+    add(1, 2, 0, 2, bad=0)
+    add(1, 2, 0, 2, bad=1)
+    add(1, 2, 1, 1, bad=1)
   else:
     for nch in (1, 2, 3):
       for n in (0, 1, 2):
@@ -137,6 +147,11 @@ def small_configs(tier):
     for nch in (1, 2):
       add(2, nch, 0, 2)
       add(2, nch, 1, 1)
+    for bad in (0, 1, 2):
+      add(1, 2, 0, 2, bad=bad)
+      add(1, 2, 1, 2, bad=bad)
+      add(1, 3, 2, 1, bad=bad)
+    add(2, 2, 0, 1, bad=1)
   return out
 
 
@@ -171,6 +186,13 @@ def gen_sched(tier, rng):
     np_ = rng.choice([1, 2, 2, 3, 3])
     size, channels = rng.choice([(1, 1), (2, 1), (3, 1), (2, 2)])
     script = [play(k, rng.randrange(0, 5), size, channels, rng.random() < 0.5) for k in range(np_)]
+    for k in range(np_):
+      r = rng.random()
+      if r < 0.15:        # an iterable that raises after some whole chunks
+        nfull = len(script[k][3]) // (size * channels)
+        script[k] = ["playbad", size, channels, script[k][3], rng.randrange(0, nfull + 1)]
+      elif r < 0.35:
+        script[k] = script[k] + [rng.choice(["h", "i", "b"])]
     alphabet = ctl_alphabet(np_)[1:]
     for _k in range(rng.randrange(0, 7)):
       x = ["close"] if rng.random() < 0.08 else list(rng.choice(alphabet))
@@ -211,6 +233,8 @@ def lit_cmd(cmd):
   k = cmd[0]
   if k == "play":
     return "CPlay %s %s" % (L.nat(cmd[1] * cmd[2]), L.lst([L.z(v) for v in cmd[3]]))
+  if k == "playbad":
+    return "CPlayBad %s %s %s" % (L.nat(cmd[1] * cmd[2]), L.lst([L.z(v) for v in cmd[3]]), L.nat(cmd[4]))
   if k == "close":
     return "CClose"
   return "%s %s" % ({"pause": "CPause", "resume": "CResume", "stop": "CStop"}[k], L.nat(cmd[1]))
